@@ -9,7 +9,7 @@ Mine(i) == i % NParts = Part
 
 Pairs == SetToSeq(RandomSubset(NParam, (1..NKinds) \X (1..NKinds)))
 EntriesOf(pairs) ==
-    T([i \in 1..Len(FixedModels) |-> [m |-> FixedModels[i], pa |-> 0, pb |-> 0, depth |-> Depth]])
+    T([i \in 1..Len(WalkModels) |-> [m |-> WalkModels[i], pa |-> 0, pb |-> 0, depth |-> Depth]])
     \o T([i \in 1..Len(pairs) |-> [m |-> ParamModel(pairs[i][1], pairs[i][2]), pa |-> pairs[i][1], pb |-> pairs[i][2], depth |-> ParamDepth]])
 Raw(m) == [id |-> m.id, root |-> m.root, enums |-> m.enums, classes |-> m.classes]
 ModelOut(e, i) == [mi |-> i, pa |-> e.pa, pb |-> e.pb, raw |-> Raw(e.m)]
